@@ -184,6 +184,7 @@ def gen_history(rng, nmax, with_error):
     """random history; every intermediate cell is well-conditioned (checked on a shadow of the parameters)."""
     ops = []
     shadow = []  # per object: [a,b,c,al,be,ga] (approximate, for validity filtering only)
+    past = {}    # per object: parameter sets it had before an update
 
     def new_cell():
         a, b, c = gen_lengths(rng)
@@ -198,9 +199,32 @@ def gen_history(rng, nmax, with_error):
     while len(ops) < n:
         kinds = ["new", "newpar", "newbase"] if not shadow else (
             ["newpar", "newbase", "new"] * (1 if len(shadow) < 2 else 0) + ["copy"] * (1 if len(shadow) < 5 else 0) + ["recip"] * (3 if len(shadow) < 8 else 0)
-            + ["setpar"] * 5 + ["prop"] * 4 + ["setbase"] * 3)
+            + ["setpar"] * 5 + ["prop"] * 4 + ["setbase"] * 3 + ["restore"] * 3)
         k = rng.choice(kinds)
         i = rng.randrange(len(shadow)) if shadow else 0
+        if k == "restore":
+            # one step back to EXACTLY the angles / lengths / parameters the object had at an earlier point of its history
+            # (a value remembered from that point must not be mistaken for the present one)
+            olds = [q for q in past.get(i, []) if q != shadow[i]]
+            if not olds:
+                continue
+            q = rng.choice(olds)
+            grp = rng.choice([[3, 4, 5], [3, 4, 5], [0, 1, 2], [0, 1, 2, 3, 4, 5]])
+            pnew = list(shadow[i])
+            for j in grp:
+                pnew[j] = q[j]
+            if not cell_ok(*pnew[3:]) or pnew == shadow[i]:
+                continue
+            chosen = [j for j in grp if pnew[j] != shadow[i][j]] if rng.random() < 0.5 else grp
+            if len(chosen) == 1 and rng.random() < 0.5:
+                ops.append({"op": "prop", "i": i, "name": NAMES[chosen[0]], "value": pnew[chosen[0]]})
+            else:
+                ops.append({"op": "setpar", "i": i, "args": {NAMES[j]: pnew[j] for j in chosen}})
+            past.setdefault(i, []).append(list(shadow[i]))
+            shadow[i] = pnew
+            continue
+        if k in ("setbase", "setpar", "prop") and shadow:
+            past.setdefault(i, []).append(list(shadow[i]))
         if k == "new":
             ops.append({"op": "new"})
             shadow.append([1.0, 1.0, 1.0, 90.0, 90.0, 90.0])
